@@ -47,12 +47,44 @@ def elementwise(case):
                         if not (float(v[0]) == sc or (np.isnan(v[0]) and np.isnan(sc))):
                             bad.append(dict(fun=name, method=method, order=order, x=x0, neighbours=arr[1:].tolist(), got=float(v[0]), scalar=sc))
                             break
+        # few candidate estimates (short user step sequences, coarse steps next to a pole / narrow peak): the choice among them
+        # must not depend on how many elements are evaluated together
+        for name, f in [('1/(1+16x^2)', lambda x: 1.0 / (1.0 + 16.0 * x * x)), ('1/x^2', lambda x: 1.0 / (x * x))]:
+            for ns in (3, 4, 5, 6, 8):
+                for method in ('central', 'forward'):
+                    d = nd.Derivative(f, step=0.25, num_steps=ns, method=method, full_output=True)
+                    for x0 in (0.375, 0.3125, -1.5):
+                        sv, si = d(x0)
+                        for arr in (np.array([x0, 1.3]), np.array([[2.0, x0], [0.9, 1.7]])):
+                            av, ai = d(arr)
+                            idx = tuple(np.argwhere(arr == x0)[0])
+                            eq = lambda a, b: a == b or (np.isnan(a) and np.isnan(b))
+                            if not (eq(av[idx], sv) and eq(ai.error_estimate[idx], si.error_estimate) and eq(ai.final_step[idx], si.final_step)):
+                                bad.append(dict(fun=name, method=method, num_steps=ns, x=x0, array=arr.tolist(), in_array=float(av[idx]), alone=float(sv),
+                                                err=(float(ai.error_estimate[idx]), float(si.error_estimate))))
+                                break
         # extra arguments
         seen = []
         g = lambda x, a, b=0: (seen.append((a, b)), a * x * x + b)[1]
         nd.Derivative(g)(np.array([1.0, 2.0]), 3.0, b=4.0)
         if not seen or any(s != (3.0, 4.0) for s in seen):
             bad.append(dict(problem='args/kwds not forwarded', seen=seen[:3]))
+        # one object, several calls: each call's own extra arguments reach f (also when only a keyword VALUE changes)
+        for klass in ('Derivative', 'Gradient', 'Hessdiag'):
+            gg = (lambda x, a, b=0: (seen.append((a, b)), a * x * x + b)[1]) if klass == 'Derivative' else \
+                (lambda x, a, b=0: (seen.append((a, b)), np.sum(a * x * x) + b * x[0])[1])
+            obj = getattr(nd, klass)(gg)
+            xx = np.array([1.0, 2.0])
+            for (a_, b_) in [(3.0, 2.0), (3.0, 5.0), (4.0, 5.0), (3.0, 2.0)]:
+                del seen[:]
+                got = obj(xx, a_, b=b_)
+                want = 2 * a_ * xx + (b_ * np.array([1.0, 0.0]) if klass == 'Gradient' else 0.0) if klass != 'Hessdiag' else 2 * a_ * np.ones(2)
+                if not seen or any(s_ != (a_, b_) for s_ in seen):
+                    bad.append(dict(cls=klass, problem='a later call on the same object received stale extra arguments', call='obj(x, %r, b=%r)' % (a_, b_), f_received=seen[:1]))
+                    break
+                if not np.allclose(got, want, rtol=1e-8, atol=1e-8):
+                    bad.append(dict(cls=klass, call='obj(x, %r, b=%r)' % (a_, b_), got=np.asarray(got).tolist(), expected=np.asarray(want).tolist()))
+                    break
         for n0 in (0,):
             del seen[:]
             got = nd.Derivative(g, n=n0)(np.array([1.0, 2.0]), 3.0, b=4.0)
